@@ -242,6 +242,10 @@ def run(prog, chk):
                            f.short, SX.show(w.e)[:50], '' if not leak else '; reaches %s without one' % SX.show(leak[0].e)[:40]), key='ctx-switch:%s' % f.short)
     chk.count('class-context switches followed by evaluation', nsw, 4)
 
+    # ---- R09.3: no scope outlives the statement or call that opened it (C07's R07.3, an obligation of lexical scoping too) ----
+    from .C07 import scope_pairing
+    scope_pairing(prog, chk, R, 'R09.3')
+
     # ---- R09.2: interpreter context is restored when an activation ends ----------------------------------------------
     chk.rule('R09.2', 'every activation that changes the lexical context (class context, static/constructor/destructor mode) saves it first and restores it on every normal exit')
     ctx_members = [f_['name'] for f_ in R.ev['fields'] if (f_['type'].endswith('RuntimeClass *') and 'ctx' in f_['name'].lower()) or
